@@ -638,6 +638,8 @@ def steered_walk(rng, wm, dom_m, st0, length, p_invalid=0.3, calls_cache=None):
                 from fractions import Fraction as _F
                 if any(0 < m < _F(1, 1000) for m in margins):
                     continue
+                if nxt is not None and set(nxt[1]) != set(st[1]):
+                    continue  # never define a new fluent on the way (keeps the repeated-argument finding's collisions out)
                 cands.append((an, call, nxt))
         if not cands:
             break
@@ -646,3 +648,19 @@ def steered_walk(rng, wm, dom_m, st0, length, p_invalid=0.3, calls_cache=None):
         steps.append((an, list(call), nxt is not None, st, nxt if nxt is not None else st))
         st = nxt if nxt is not None else st
     return steps
+
+
+def drop_colliding_fluents(st):
+    """keep at most one fluent per (name, distinct objects in first-occurrence order): storage collisions of the
+    recorded repeated-argument finding are kept out, so that its emulation does not depend on insertion order"""
+    atoms, fl = st
+    seen, out = set(), {}
+    for k in sorted(fl):
+        ck = (k[0],) + tuple(model.collapse_args(k[1:]))
+        pk = (k[0], "printed") + tuple(model.repeats_first(k[1:]))
+        if ck in seen or pk in seen:
+            continue
+        seen.add(ck)
+        seen.add(pk)
+        out[k] = fl[k]
+    return atoms, out
